@@ -2,7 +2,7 @@
 //! Complete closure: the accumulator's whole state is one byte (raw_value() exposes it), so
 //! enumerating every operation from every one of the 256 states covers all histories.
 use crate::ev::Ctx;
-use crate::sr::{explore, FnModel};
+use crate::sr::{explore, FnModel, Node};
 use acpi_tables::{AmlSink, Checksum};
 use rayon::prelude::*;
 use serde_json::json;
@@ -241,29 +241,25 @@ pub fn run(ctx: &'static Ctx) {
     };
     let acts2 = acts.clone();
     let ctxp = ctx;
-    let m = FnModel::<St, Act> {
-        init: vec![St { raw: Checksum::default().raw_value(), model: 0 }],
+    let m = FnModel::<St, (), Act> {
+        init: vec![Node { key: St { raw: Checksum::default().raw_value(), model: 0 }, aux: (), bad: false }],
         actions: Arc::new(move |_s, out| out.extend(acts2.iter().cloned())),
-        next: Arc::new(move |s, a| {
-            let mut c = at(s.raw);
+        step: Arc::new(move |s, a| {
+            let mut c = at(s.key.raw);
             apply(&mut c, a);
-            Some(St { raw: c.raw_value(), model: model_step(s.model, a) })
-        }),
-        judge: Arc::new(move |s| {
-            if s.raw as u64 == s.model {
-                true
-            } else {
-                ctxp.violation(
+            let k = St { raw: c.raw_value(), model: model_step(s.key.model, a) };
+            let ok = k.raw as u64 == k.model
+                || ctxp.violation(
                     "acc:closure",
-                    || format!("reachable state raw {} but reference sum {}", s.raw, s.model),
-                    || json!({"state": format!("{:?}", s)}),
-                )
-            }
+                    || format!("state {:?} action {:?} -> raw {} but reference sum {}", s.key, a, k.raw, k.model),
+                    || json!({"state": format!("{:?}", s.key), "action": format!("{:?}", a)}),
+                );
+            Some(Node { key: k, aux: (), bad: !ok })
         }),
         boundary: Arc::new(|_| true),
         transitions: Arc::new(AtomicU64::new(0)),
     };
-    let o = explore(m, 4, false, 1 << 20);
+    let o = explore(m, 4, false, 1 << 20, false);
     ctx.st(o.unique);
     ctx.tr(o.transitions);
     ctx.engine(
